@@ -109,77 +109,130 @@ def check(src, rep):
     scale = next((s for s in scaler.a["subs"] if isinstance(s, N) and s.name == "scale"), None)
     expo = next((s for s in scaler.a["subs"] if isinstance(s, N) and s.name == "exponent"), None)
     rep.require(scale is not None and scale.kind == "Computed" and expo is not None, "Scaler lacks exponent / computed scale")
+    # the scale factor and the scaled value as terms over a symbolic register, for every signed 8-bit exponent (E-ABS on the Computed expressions)
+    from sa.abseval import AbsEval as _AE, AObj as _AO, Sym as _Sym
+    from sa.sveval import Res as _Res
     lam = scale.a["expr"].node
-    body_expr = lam.body if isinstance(lam, ast.Lambda) else lam
-    k_scale = numeric_kind(body_expr, {"exponent": "int"})
     vexpr = val.a["expr"].node if isinstance(val.a["expr"], Expr) else None
-    k_val = numeric_kind(vexpr, {"unscaled_value": "int", "scale": k_scale}) if vexpr is not None else None
-    if k_scale == "Decimal" and k_val == "Decimal":
-        rep.ok("R2", "scaled value", "unscaled (int) x Decimal(10) ** exponent (int): computed entirely in {int, Decimal}")
-    elif k_scale is None or k_val is None:
-        rep.undecide(f"R2 numeric kind of the scaled value could not be inferred ({ast.unparse(body_expr)[:60]} / {ast.unparse(vexpr)[:60] if vexpr else None})")
+    REG = _Sym("register", "int")
+    badk = None
+    und2 = None
+    ae = _AE(M)
+    for k in list(range(-128, 128)):
+        ctx = _AO("Container", {"exponent": k})
+        r = ae.eval_expr(lam, {"__args__": [ctx], "this": ctx}, scale.a["expr"].mod or "cosem")
+        want_scale = _Res("Pow", _Res("Decimal", 10), k)
+        if r[0] in ("undecided", "branch"):
+            und2 = f"scale expression: {r[1]}"
+            break
+        if r[0] == "raise" or r[1] != want_scale:
+            badk = ("scale", k, r[1])
+            break
+        if vexpr is not None:
+            vctx = _AO("Container", {"unscaled_value": REG, "scaler_unit": _AO("Container", {"scaler": _AO("Container", {"exponent": k, "scale": want_scale}), "unit": _Sym("unit", "int")})})
+            r2 = ae.eval_expr(vexpr, {"__args__": [vctx], "this": vctx}, val.a["expr"].mod or MOD)
+            if r2[0] in ("undecided", "branch"):
+                und2 = f"value expression: {r2[1]}"
+                break
+            if r2[0] == "raise" or r2[1] != _Res("Mult", REG, want_scale):
+                badk = ("value", k, r2[1])
+                break
+    if und2 or vexpr is None:
+        rep.undecide(f"R2 the scaled value is outside the interpreted subset ({und2 or 'no value expression'})")
+    elif badk:
+        what, k, got = badk
+        if what == "scale":
+            rep.violation("R2", "cosem.Scaler", "inexact-scaling", f"for scaler exponent {k} the multiplication factor is {got!r} instead of the exact Decimal(10) ** {k}: register x 10^scaler is not exact (or not defined) for every scaler",
+                          src.file("cosem"), scale.line or 1, witness=f"exponent {k}: {got!r}")
+        else:
+            rep.violation("R2", "aidon.Element", "value-expression", f"the scaled value is {got!r} instead of unscaled_value x Decimal(10) ** exponent", file, val.line or 1, witness=f"exponent {k}")
     else:
-        rep.violation("R2", "cosem.Scaler" if k_scale != "Decimal" else "aidon.Element", "inexact-scaling", f"the scaled value is computed in binary floating point (scale is {k_scale}, value is {k_val}): register x 10^scaler is not exact",
-                      src.file("cosem") if k_scale != "Decimal" else file, scale.line or 1, witness=ast.unparse(body_expr)[:80])
-    # the value multiplies exactly unscaled_value and scaler.scale
-    if vexpr is not None:
-        txt = ast.unparse(vexpr).replace("construct.", "")
-        if not (isinstance(vexpr, ast.BinOp) and isinstance(vexpr.op, ast.Mult) and {txt.split(" * ")[0], txt.split(" * ")[-1]} == {"this.unscaled_value", "this.scaler_unit.scaler.scale"}):
-            rep.violation("R2", "aidon.Element", "value-expression", "the scaled value is not unscaled_value x scaler.scale", file, val.line or 1, witness=txt[:80])
-    # ---------------------------------------------------------------- R3/R4/R5: normaliser
-    from sa.decoders import normaliser_workers
+        rep.ok("R2", "scaled value", "unscaled (int) x Decimal(10) ** exponent for every signed 8-bit exponent: computed entirely in {int, Decimal} (symbolic register)")
+    # ---------------------------------------------------------------- R3/R4/R5: normaliser, evaluated on an abstract parsed list (E-ABS)
+    from sa.abseval import AbsEval, AObj, Sym
+    from sa.decoders import normaliser_workers, obis_hook
+    from sa.sveval import Res
     ws = normaliser_workers(M, MOD)
     rep.require(len(ws) == 1, f"cannot find the one list-items normaliser reached from the public normalize_* functions (found {[w.name for w in ws]})")
     fn = ws[0]
-    E = Engine(M)
-    node, ps = loop_body_paths(E, fn)
-    item = ("iter", ("p", fn.params[0]), node.lineno)
-    content_sv = ("f0", item, "content")
+    try:
+        name_map = ce.module_value("obis_map", "obis_name_map")
+        MAN = ce.module_value("obis_map", "FIELD_METER_MANUFACTURER")
+    except Exception as e:  # NotConstant
+        raise Undecided(f"obis_map tables not constant: {e}")
+    known = [k for k in sorted(name_map) if k != "1.0.0"][:3]
+    U, V, TXT, DT, U2 = Sym("unscaled", "int"), Sym("scaled", "Decimal"), Sym("text", "str"), Sym("clock", "datetime"), Sym("unscaled2", "int")
+
+    def code(cdr):
+        return f"1.1.{cdr}.255"
+    cases = [  # (class, OBIS code, content, expected stored value, rule, tag, text)
+        ("scaled number", code(known[0]), AObj("Container", {"unscaled_value": U, "value": V, "scaler_unit": AObj("Container", {})}), Res("float", V), "R3", "int-or-float",
+         "the stored number is not `unscaled integer if it equals the scaled value else float(scaled value)` (e.g. extra rounding changes the correctly rounded float)"),
+        ("unscaled number", code(known[1]), AObj("Container", {"unscaled_value": U2, "value": U2, "scaler_unit": AObj("Container", {})}), U2, "R3", "int-or-float",
+         "a register whose scaled value equals the unscaled integer is not stored as that integer"),
+        ("text", code(known[2]), TXT, TXT, "R5", "text-not-verbatim", "a text element is transformed before it is stored"),
+        ("clock", "0.0.1.0.0.255", AObj("Container", {"datetime": DT}), DT, "R5", "clock-not-datetime", "the clock element does not store the decoded datetime"),
+        ("unknown code", "1.1.250.251.252.255", AObj("Container", {"unscaled_value": U, "value": V, "scaler_unit": AObj("Container", {})}), Res("float", V), "R4", "naming", ""),
+    ]
+    items = [AObj("Container", {"obis": c, "content": content}) for _, c, content, _, _, _, _ in cases]
+    want = {MAN: "Aidon"}
+    for cls_, c, _, val, _, _, _ in cases:
+        cdr = ".".join(c.split(".")[2:5])
+        want[name_map.get(cdr, cdr)] = val
+    A = AbsEval(M, hooks={"Obis.from_string": obis_hook}, unequal=[(U, V)])
+    res = A.apply(fn, [items])
     n_store = 0
     bad = 0
-    for p in ps:
-        st = setitems(p)
-        if len(st) != 1:
+    if res[0] == "undecided":
+        rep.undecide(f"R3 aidon.{fn.name} is outside the interpreted subset: {res[1]}")
+        bad += 1
+    elif res[0] == "branch":
+        rep.undecide(f"R3 aidon.{fn.name} branches on a condition the element classes do not determine: {res[1]!r}")
+        bad += 1
+    elif res[0] == "raise" and res[1] == "KeyError":
+        bad += 1
+        rep.violation("R4", f"aidon.{fn.name}", "naming", "the common-name table is indexed without a membership test (unknown OBIS codes raise KeyError)", file, fn.node.lineno)
+    elif res[0] == "raise":
+        bad += 1
+        rep.violation("R3", f"aidon.{fn.name}", "normaliser-raises", f"the normaliser raises {res[1]} for a well-formed list (scaled and unscaled registers, text, clock, unknown code)", file, fn.node.lineno)
+    else:
+        got = res[1]
+        if not isinstance(got, dict):
+            raise Undecided(f"aidon.{fn.name} does not return a dictionary")
+        for cls_, c, _, val, rule, tag, text in cases:
+            cdr = ".".join(c.split(".")[2:5])
+            key = name_map.get(cdr, cdr)
+            n_store += 1
+            if key not in got:
+                bad += 1
+                others = [k for k in got if k not in want]
+                rep.violation("R4", f"aidon.{fn.name}", "naming", f"the {cls_} element with C.D.E {cdr} is not stored under {key!r} (obis_name_map[C.D.E] when known, else C.D.E)" +
+                              (f"; found {others[:3]}" if others else ""), file, fn.node.lineno)
+            elif got[key] != val:
+                bad += 1
+                rep.violation(rule, f"aidon.{fn.name}", tag, text or f"the {cls_} element is stored as {got[key]!r}", file, fn.node.lineno, witness=f"{cls_}: stored {got[key]!r}, expected {val!r}")
+        extra = [k for k in got if k not in want]
+        if extra:
             bad += 1
-            rep.violation("R4", f"aidon.{fn.name}", "stores-per-element", f"an element produces {len(st)} dictionary entries instead of one", file, node.lineno)
-            continue
-        key, value, line = st[0]
-        n_store += 1
-        nv = naming_verdict(key, p.guards, item)
-        if nv:
+            rep.violation("R4", f"aidon.{fn.name}", "stores-per-element", f"the dictionary has entries that no element of the list accounts for: {extra[:4]}", file, fn.node.lineno)
+        if got.get(MAN) != "Aidon":
             bad += 1
-            rep.violation("R4", f"aidon.{fn.name}", "naming", nv, file, line)
-        lits = {}
-        for g, pol, _ in p.guards:
-            g = strip_epoch(g)
-            if g[0] == "call" and g[1] == "isinstance" and g[2][0] == content_sv and "str" in show_sv(g[2][1]):
-                lits["str"] = pol
-            if g[0] == "call" and g[1] == "hasattr" and g[2] == (content_sv, ("c", "datetime")):
-                lits["dt"] = pol
-        if lits.get("str"):
-            if value != content_sv:
-                bad += 1
-                rep.violation("R5", f"aidon.{fn.name}", "text-not-verbatim", "a text element is transformed before it is stored", file, line, witness=show_sv(value)[:80])
-        elif lits.get("dt"):
-            if value != ("f0", content_sv, "datetime"):
-                bad += 1
-                rep.violation("R5", f"aidon.{fn.name}", "clock-not-datetime", "the clock element does not store the decoded datetime", file, line, witness=show_sv(value)[:80])
-        elif lits.get("str") is False and lits.get("dt") is False:
-            U, V = ("f0", content_sv, "unscaled_value"), ("f0", content_sv, "value")
-            want = ("ite", ("cmp", "Eq", U, V), U, ("call", "float", (V,)))
-            alt = ("ite", ("cmp", "Eq", V, U), U, ("call", "float", (V,)))
-            norm = value
-            if norm[0] == "ite" and norm[3][0] == "call" and norm[3][1] == "float":
-                norm = ("ite", norm[1], norm[2], ("call", "float", norm[3][2]))
-            if norm not in (want, alt):
-                bad += 1
-                rep.violation("R3", f"aidon.{fn.name}", "int-or-float", "the stored number is not `unscaled integer if it equals the scaled value else float(scaled value)` "
-                              "(e.g. extra rounding changes the correctly rounded float)", file, line, witness=show_sv(value)[:140])
+            rep.violation("R5", f"aidon.{fn.name}", "manufacturer", "the manufacturer field is not the constant 'Aidon'", file, fn.node.lineno, witness=repr(got.get(MAN)))
         else:
-            rep.undecide(f"R3 an element path is not classified by isinstance(content, str) / hasattr(content, 'datetime'): {[show_sv(g)[:40] for g, _, _ in p.guards]}")
+            rep.ok("R5", "manufacturer", "meter_manufacturer = 'Aidon'")
+    # no history: a second list of the same length with other codes, decoded by the same interpreter state, is keyed by its own codes
+    if not bad and res[0] == "value":
+        items2 = [AObj("Container", {"obis": c, "content": content}) for c, content in zip([code(known[2]), code(known[0]), "1.1.250.251.252.255", code(known[1]), "0.0.1.0.0.255"],
+                                                                                          [TXT, cases[0][2], cases[4][2], cases[1][2], cases[3][2]])]
+        res2 = A.apply(fn, [items2])
+        want2 = {MAN: "Aidon", name_map[known[2]]: TXT, name_map[known[0]]: Res("float", V), "250.251.252": Res("float", V), name_map[known[1]]: U2, name_map.get("1.0.0", "1.0.0"): DT}
+        if res2[0] != "value" or res2[1] != want2:
+            bad += 1
+            rep.violation("R4", f"aidon.{fn.name}", "history-dependent", "the dictionary of a list depends on lists decoded earlier (module-level state): a second list of the same length with other OBIS codes "
+                          "is not keyed by its own codes", file, fn.node.lineno, witness=f"second call gives {res2[1] if res2[0] == 'value' else res2!r}"[:200])
     if not bad and n_store:
-        rep.ok("R3", "numeric elements", "stored value = unscaled integer when equal to the scaled Decimal, else float(scaled Decimal)")
-        rep.ok("R4", f"{n_store} element paths", "key = obis_name_map[C.D.E] under a membership test, else C.D.E; C.D.E from groups 2-4 of the element's OBIS code")
+        rep.ok("R3", "numeric elements", "stored value = unscaled integer when equal to the scaled Decimal, else float(scaled Decimal) (symbolic register values)")
+        rep.ok("R4", f"{n_store} element classes", "key = obis_name_map[C.D.E] when known, else C.D.E of the element's OBIS code")
         rep.ok("R5", "text and clock elements", "text stored verbatim; clock stores the struct's datetime member")
     cg = cdr_groups_finding(M)
     if cg:
@@ -194,30 +247,31 @@ def check(src, rep):
     vstr = next((s for k, s in vs.items() if isinstance(k, EnumVal) and k.value == 10), None)
     if not (isinstance(vstr, N) and vstr.kind == "PascalString"):
         rep.violation("R5", "aidon.Element", "visible-string", "visible-string content is not a plain length-prefixed ASCII string", file, content.line or 1)
-    # manufacturer
-    man = [n for n in ast.walk(fn.node) if isinstance(n, ast.Dict)]
-    okm = any(any(isinstance(v, ast.Constant) and v.value == "Aidon" for v in d.values) and any("FIELD_METER_MANUFACTURER" in ast.unparse(k) for k in d.keys) for d in man)
-    if okm:
-        rep.ok("R5", "manufacturer", "meter_manufacturer = 'Aidon'")
-    else:
-        rep.violation("R5", f"aidon.{fn.name}", "manufacturer", "the manufacturer field is not the constant 'Aidon'", file, fn.node.lineno)
     # ---------------------------------------------------------------- R6
     rs = list(routes(frame, body))
     tg = parse_targets(M, MOD)
     ok6 = len(rs) == 1 and tg.get("decode_frame_content") == "LlcPdu" and tg.get("decode_notification_body") == "NotificationBody"
     fr_fn, bo_fn = M.funcs.get("aidon.normalize_parsed_frame"), M.funcs.get("aidon.normalize_parsed_notification")
     rep.require(fr_fn is not None and bo_fn is not None, "anchor vanished: aidon normalisers")
-    a1 = [ast.unparse(n.args[0]) for n in ast.walk(fr_fn.node) if isinstance(n, ast.Call) and ast.unparse(n.func) == fn.name]
-    a2 = [ast.unparse(n.args[0]) for n in ast.walk(bo_fn.node) if isinstance(n, ast.Call) and ast.unparse(n.func) == fn.name]
-    p1, p2 = (fr_fn.params[0] if fr_fn.params else ""), (bo_fn.params[0] if bo_fn.params else "")
-    ok6 = ok6 and a1 == [f"{p1}.information.notification_body.list_items"] and a2 == [f"{p2}.list_items"]
+    # both public normalisers give the same dictionary for the same list, reached through the frame wrapper or directly
+    if res[0] == "value":
+        body_obj = AObj("Container", {"list_items": items})
+        frame_obj = AObj("Container", {"information": AObj("Container", {"notification_body": body_obj})})
+        r1 = AbsEval(M, hooks={"Obis.from_string": obis_hook}, unequal=[(U, V)]).apply(fr_fn, [frame_obj])
+        r2 = AbsEval(M, hooks={"Obis.from_string": obis_hook}, unequal=[(U, V)]).apply(bo_fn, [body_obj])
+        a1 = a2 = None
+        ok6 = ok6 and r1[0] == "value" and r2[0] == "value" and r1[1] == res[1] and r2[1] == res[1]
+        if r1[0] in ("undecided", "branch") or r2[0] in ("undecided", "branch"):
+            rep.undecide(f"R6 public normalisers outside the interpreted subset: {r1[:2]} / {r2[:2]}")
+    else:
+        a1 = a2 = None
     if ok6:
         rep.ok("R6", "frame = body", "LlcPdu wraps the same NotificationBody grammar object; both entry points hand its list_items to the same normaliser")
     else:
         rep.violation("R6", "aidon", "frame-body", "frame and bare-body decoding do not share grammar and normaliser", file, 1, witness=f"routes={len(rs)} parse={tg} args={a1},{a2}")
     from sa.cross import include
     include(rep, src, "C10", {"R1", "R2", "R3", "R4"}, "R5", "the clock element is the transmitted date-time")
-    rep.floor("element paths", n_store, 3)
+    rep.floor("element classes", n_store, 5)
 
 
 def thorough(src, rep):
